@@ -14,7 +14,7 @@ from ..gen_scenes import gen_chain_scene, gen_contact_scene, add_knife_edge, rot
 from .. import rot
 from ..scenes import build
 from ..seams import Sim
-from ..session import gen_solver, project_velocities, run_solver, require_regular, body_states
+from ..session import gen_solver, project_velocities, run_solver, require_regular, body_states, harness_M
 
 PROPERTY = "C16"
 LEVEL = "exploration"
@@ -34,6 +34,7 @@ RULE = (
     "non-trivial = at least one constraint, compliance element, actuator or closed contact"
 )
 RULE += " Chain sessions may carry a user-defined nonholonomic (velocity-level) constraint. Fault F2 at the initial-condition fixed point (forced through the decision hook, or organic through an iteration budget of 1..3) with continue_with_unconverged on / off: assembly must raise, warn, or hand out values that satisfy the monitor."
+RULE += " A third of the runs build their System on an object that was assembled before with prototype bodies of other masses (then replaced); the equations-of-motion residual uses the mass matrix scattered from the bodies themselves."
 COMPONENTS = {
     "real": ["consistent_initial_conditions / compute_I_F", "System.assemble / set_new_initial_state / deepcopy", "Rattle (to reach states)", "all contributions"],
     "stub": ["tqdm -> SimProgress"],
@@ -94,6 +95,9 @@ def gen(rng, tier, index):
         scene["t0"] = float(np.round(rng.uniform(-3.0, 8.0), 3))  # the time origin is arbitrary
     if fam not in ("contact", "arm_on_floor", "bar_on_supports"):
         add_knife_edge(rng, scene, prob=0.3)  # velocity-level constraint: gamma_dot(u_dot0) = 0 and W_gamma la_gamma0 in the monitor
+    if index % 3 == 1:
+        # API history (F8): the System was assembled before with prototype bodies that were then replaced
+        scene["earlier_assembly"] = {"mass_scale": [0.2, 5.0][(index // 3) % 2]}
     return plan
 
 
@@ -102,7 +106,7 @@ def monitor_ic(B, out, tag):
     s = B.system
     t, q, u, ud = s.t0, s.q0, s.u0, s.u_dot0
     la_g, la_ga, la_c, la_N, la_F = s.la_g0, s.la_gamma0, s.la_c0, s.la_N0, s.la_F0
-    M = s.M(t, q).toarray()
+    M = harness_M(s, t, q)  # from the bodies themselves
     h = s.h(t, q, u)
     terms = {
         "W_tau@la_tau": s.W_tau(t, q).toarray() @ s.la_tau(t, q, u),
@@ -281,6 +285,8 @@ def execute(plan, out, log):
             raise Discard(f"assemble:{type(e).__name__}")
         require_regular(B)
         s = B.system
+        if getattr(B, "earlier_assembly", False):
+            out["probes"]["system_assembled_before_with_other_bodies"] += 1
         classes |= {type(c).__name__ for c in s.contributions}
         if not monitor_ic(B, out, "first assemble"):
             return
